@@ -4,6 +4,27 @@ use proptest::prelude::*;
 use proptest::sample::select;
 use serde::{Deserialize, Serialize};
 
+/// log-uniform: every bit length 0..=50 equally likely, uniform within the bit length, capped at MAX
+pub fn log_uniform() -> BoxedStrategy<u64> {
+    let m = max_int();
+    (0u32..=50, any::<u64>())
+        .prop_map(move |(bits, r)| {
+            if bits == 0 {
+                0
+            } else {
+                let lo = 1u64 << (bits - 1);
+                (lo + r % lo).min(m)
+            }
+        })
+        .boxed()
+}
+
+/// powers of two and their neighbours
+pub fn bit_boundary() -> BoxedStrategy<u64> {
+    let m = max_int();
+    (1u32..=50, 0u64..3).prop_map(move |(k, d)| ((1u64 << k) - 1 + d).min(m)).boxed()
+}
+
 pub fn field() -> BoxedStrategy<u64> {
     let m = max_int();
     prop_oneof![
@@ -11,6 +32,8 @@ pub fn field() -> BoxedStrategy<u64> {
         1 => select(vec![m - 1, m]),
         1 => 0..=m,
         1 => 0..1000u64,
+        2 => log_uniform(),
+        1 => bit_boundary(),
     ]
     .boxed()
 }
@@ -25,6 +48,8 @@ pub fn str_ident_text() -> BoxedStrategy<String> {
         6 => select(vec!["a", "A", "b", "alpha", "beta", "rc", "a0", "0a", "a-", "-", "-1", "--", "x", "X", "Z", "z", "a1", "a10", "a2", "00a", "1-"])
             .prop_map(|s| s.to_string()),
         2 => "[0-9A-Za-z-]{1,8}".prop_map(|s| if s.bytes().all(|b| b.is_ascii_digit()) { format!("r{}", s) } else { s }),
+        1 => "[0-9A-Za-z-]{9,24}".prop_map(|s| if s.bytes().all(|b| b.is_ascii_digit()) { format!("r{}", s) } else { s }),
+        1 => "[0-9-]{2,12}".prop_map(|s| if s.bytes().all(|b| b.is_ascii_digit()) { format!("{}-", s) } else { s }),
     ]
     .boxed()
 }
@@ -69,6 +94,10 @@ pub fn small_mversion() -> BoxedStrategy<MVersion> {
 
 #[derive(Clone, Debug, Serialize, Deserialize)]
 pub enum Mutation {
+    /// the semver release bumps: next major / minor / patch release
+    NextMajor,
+    NextMinor,
+    NextPatch,
     BumpMajor,
     BumpMinor,
     BumpPatch,
@@ -86,6 +115,9 @@ pub enum Mutation {
 
 pub fn mutation() -> BoxedStrategy<Mutation> {
     prop_oneof![
+        1 => Just(Mutation::NextMajor),
+        1 => Just(Mutation::NextMinor),
+        1 => Just(Mutation::NextPatch),
         1 => Just(Mutation::BumpMajor),
         1 => Just(Mutation::BumpMinor),
         2 => Just(Mutation::BumpPatch),
@@ -107,6 +139,21 @@ pub fn apply(v: &MVersion, m: &Mutation) -> MVersion {
     let mut v = v.clone();
     let mx = max_int();
     match m {
+        Mutation::NextMajor => {
+            v.major = (v.major + 1).min(mx);
+            v.minor = 0;
+            v.patch = 0;
+            v.pre.clear();
+        }
+        Mutation::NextMinor => {
+            v.minor = (v.minor + 1).min(mx);
+            v.patch = 0;
+            v.pre.clear();
+        }
+        Mutation::NextPatch => {
+            v.patch = (v.patch + 1).min(mx);
+            v.pre.clear();
+        }
         Mutation::BumpMajor => v.major = (v.major + 1).min(mx),
         Mutation::BumpMinor => v.minor = (v.minor + 1).min(mx),
         Mutation::BumpPatch => v.patch = (v.patch + 1).min(mx),
